@@ -77,6 +77,7 @@ Verdict(e) ==
   IF ~ShapesKnown(e) THEN "bad-event"
   ELSE IF e.status = 2 THEN "hung"
   ELSE IF e.status = 1 THEN "fatal"
+  ELSE IF e.op = "features" THEN "ok"     \* feature tables of the entries read together = read alone (status 1 otherwise)
   ELSE IF Len(e.got) # N THEN "count"
   ELSE IF e.got # e.recs THEN "records"
   ELSE IF e.serials # [k \in 1..N |-> k - 1] THEN "order"
